@@ -4,7 +4,7 @@ from typing import Any, Callable, Dict, List, Optional, Tuple
 
 import icontract
 
-from vfw.hlib import Tag, drive, RecRepr, Suspend
+from vfw.hlib import Tag, FalsyTag, drive, RecRepr, Suspend
 from vfw.prog import (
     Prog,
     effective,
@@ -123,6 +123,11 @@ def _error_kwargs(rt: Built, label: Tuple[Any, ...], avail: Tuple[str, ...] = ()
             rt.rt.errlog.append(label)
             return Tag(label)
         return {"error": err}
+    if mode == "falsy_factory":
+        def ferr() -> Exception:
+            rt.rt.errlog.append(label)
+            return FalsyTag(label)
+        return {"error": ferr}
     if mode == "default":
         return {"a_repr": rt.rec}
     if mode == "class":
@@ -139,6 +144,10 @@ def _error_kwargs(rt: Built, label: Tuple[Any, ...], avail: Tuple[str, ...] = ()
 def identify(rt: Built, exc: BaseException) -> Optional[Tuple[Any, ...]]:
     """Which contract does the raised exception belong to (label), per the configured error form."""
     mode = rt.error_mode
+    if mode == "falsy_factory":
+        if type(exc) is FalsyTag:
+            return exc.label  # type: ignore
+        return None
     if mode in ("factory", "factory_kw"):
         if type(exc) is Tag:
             return exc.label  # type: ignore
